@@ -556,6 +556,21 @@ pub fn minimize(case: &Case, category: &str) -> Result<(Case, Analysis), String>
                     cur = cand;
                     cur_t = tr;
                     changed = true;
+                    continue;
+                }
+                // the dropped operation may have been what the first task did before the
+                // others got going: try the other start as well
+                if cur.tasks.len() == 2 {
+                    let mut cand = without_op(&cur, &cur_t.owners, t, i);
+                    if cand.schedule.is_empty() {
+                        cand.schedule.push(0);
+                    }
+                    cand.schedule[0] = if cand.schedule[0] == 0 { 1 } else { 0 };
+                    if let Some(tr) = try_candidate(&mut cand, category)? {
+                        cur = cand;
+                        cur_t = tr;
+                        changed = true;
+                    }
                 }
             }
         }
